@@ -44,6 +44,25 @@ def seeded():
             out.append('| %s | %s | %s |' % (k, res[k]['check'], res[k]['result']))
     return '\n'.join(out)
 
+def equivalents():
+    rows = []
+    alarms = 0
+    for d in sorted(glob.glob('/verif/equivalents/*/meta.json')):
+        m = json.load(open(d))
+        name = os.path.basename(os.path.dirname(d))
+        ev = m.get('evaluation', {})
+        al = ev.get('alarms', [])
+        alarms += len(al)
+        summ = re.sub(r'\s+', ' ', m.get('summary', '')).replace('|', '/')
+        if len(summ) > 200:
+            summ = summ[:197] + '...'
+        obs = re.sub(r'\s+', ' ', m.get('observable_difference', '')).replace('|', '/')
+        if len(obs) > 140:
+            obs = obs[:137] + '...'
+        rows.append('| %s | %s | %s | %s | %s |' % (name, summ, obs, ', '.join(sorted(ev.get('checks', {}))), 'silent' if not al else 'ALARM: ' + ', '.join(al)))
+    return '\n'.join(['**Behaviour-preserving rewrites written by independent sub-agents (%d; %d alarms).** Each passes the existing suite; every listed check was run against it in the quick tier and must exit 0.' % (len(rows), alarms), '',
+                      '| rewrite | change | observable difference | checks run | result |', '|---|---|---|---|---|'] + rows)
+
 def costs():
     th = {}
     if os.path.exists('/verif/thorough_results.json'):
@@ -62,5 +81,6 @@ def costs():
 s = open('/verif/DESIGN.md').read()
 s = block(s, 'seeded', seeded())
 s = block(s, 'costs', costs())
+s = block(s, 'equivalents', equivalents())
 open('/verif/DESIGN.md', 'w').write(s)
 print('tables regenerated')
